@@ -35,7 +35,7 @@ CHECKS = {
    "runtime monitoring: sampled public-API safety oracle + bounded-progress oracle over a scripted hostile network", "5/C04"),
  "C08": ("crash runner", "fault_enumeration",
    "Seeded scripts of appends / filter batches / rollbacks / reorganisation composites run on the real stores; EVERY crash point of every primitive (before/after each flat-file write, five torn lengths inside each write, after each truncate, after each index commit) yields a crash image that is opened like a restarting client and must open, hold exactly the before- or after-state in each store, have whole-record files agreeing with the tips, consistent by-hash lookups, filter tip <= block tip, and accept appends at the right heights. A sample of the same points is re-done with a real SIGKILL of a child process; the thorough tier adds SIGKILLs at random instants. IMPORT family: the real chainimport.Import runs on pre-filled real stores (block store ahead of the filter store by 0-5) over generated PoW-valid files with every batch class; every crash point during Import yields an image that must open, hold prior content plus a file prefix ending at a durable step, and the SAME import re-run on it must succeed and give exactly the complete final state. On every image of both families the real block manager is constructed on the reopened stores and must take one valid next header to tip+1.",
-   "Process-death model (completed syscalls persist; bbolt commit atomic); power-loss reordering out of reach; store creation is not in the scripts; the one-header restart on the crash state itself is done on one import image in four.",
+   "Process-death model (completed syscalls persist; bbolt commit atomic); power-loss reordering out of reach; torn genesis records are covered through the torn-append points plus open-time trimming, the first start itself by crash points around every index commit of the two constructors on an empty directory; the one-header restart on the crash state itself is done on one import image in four.",
    "runtime monitoring: exhaustive crash-point enumeration with crash images / real SIGKILL + recovery oracle", "5/C08"),
 
  "C07": ("headerfs component driver", "fault_enumeration",
